@@ -275,8 +275,11 @@ def run_audit(M, conns, host='target', port=22, json=False, ssh1=True, ssh2=True
     M.ssh1_kexdb.SSH1_KexDB.DB_PER_THREAD.clear()
     cap = io.StringIO()
     more = {'select': SelectStub} if isinstance(net, ListenNet) else {}
-    with patched(M.ssh_socket, socket=net, **more):
+    import time as _time
+    slept = []
+    # no real waiting inside the checker: a sleep is recorded and returns at once
+    with patched(M.ssh_socket, socket=net, **more), patched(_time, sleep=lambda t: slept.append(t)):
         with contextlib.redirect_stdout(cap):
             r = guarded(M.ssh_audit.audit, out, aconf, None, print_target)
     lines = list(out.buffer) + list(out.section)
-    return {'ret': r, 'lines': lines, 'net': net, 'stdout': cap.getvalue(), 'out': out}
+    return {'ret': r, 'lines': lines, 'net': net, 'stdout': cap.getvalue(), 'out': out, 'slept': slept}
